@@ -365,22 +365,22 @@ type c05Tok struct {
 }
 
 type c05World struct {
-	t      *testing.T
-	env    *verifEnv
-	vip    *c05Vip
-	res    *verifResult
-	names  []string // index = model user id
-	devs   map[int]c05Devs
-	cfg    c05Config
-	okta      *c05Okta
-	oktaAuth  *okta.PasswordAuthenticator
-	htpasswd  pwauth.PasswordAuthenticator
-	oktaAt    map[int]int64 // model time of the user's last successful password check through Okta
-	secret map[int]string
-	u2fKey map[int]*c05Key
-	waKey  map[int]*c05Key
-	admin  *http.Cookie
-	webui  int
+	t        *testing.T
+	env      *verifEnv
+	vip      *c05Vip
+	res      *verifResult
+	names    []string // index = model user id
+	devs     map[int]c05Devs
+	cfg      c05Config
+	okta     *c05Okta
+	oktaAuth *okta.PasswordAuthenticator
+	htpasswd pwauth.PasswordAuthenticator
+	oktaAt   map[int]int64 // model time of the user's last successful password check through Okta
+	secret   map[int]string
+	u2fKey   map[int]*c05Key
+	waKey    map[int]*c05Key
+	admin    *http.Cookie
+	webui    int
 	// per history
 	cookies        []c05Cookie
 	tokens         []c05Tok
@@ -389,7 +389,7 @@ type c05World struct {
 	txReal         map[int]string
 	txOwner        map[int]int
 	vcTx           map[int]int
-	vcAt           map[int]int64 // model time at which the push transaction of that cookie value was started
+	vcAt           map[int]int64  // model time at which the push transaction of that cookie value was started
 	values         map[string]int // every one-time value ever handed out (challenge, bootstrap OTP, push transaction), by CONTENT -> id
 	handed         int            // id of the one-time value the current operation handed out (-1: none)
 	chalBytes      map[int][]byte
@@ -405,12 +405,14 @@ type c05World struct {
 	provedAt       map[[2]int]int64 // model time of the latest verification of (user, factor)
 	accepted       map[string]bool
 	realStep       int64
-	expiredSession bool // the last auth cookie attached to the current request is expired
-	cert           int  // the next request carries a verified keymaster client certificate of this user (0: none)
-	fault          bool // profile writes fail during the next request
+	expiredSession bool                             // the last auth cookie attached to the current request is expired
+	cert           int                              // the next request carries a verified keymaster client certificate of this user (0: none)
+	fault          bool                             // profile writes fail during the next request
+	cachedReq      bool                             // the next request is served while the primary database does not answer in time (fromCache)
+	cachedWrote    bool                             // ... and the primary's user_profile table was different afterwards
 	chains         map[string][][]*x509.Certificate // by user name
-	dirty          bool // stored profiles may differ from the pristine ones
-	savedFor       int  // configuration the stored profiles were written for
+	dirty          bool                             // stored profiles may differ from the pristine ones
+	savedFor       int                              // configuration the stored profiles were written for
 	cfgID          int
 	ops            []string
 	outs           []string
@@ -423,14 +425,14 @@ type c05World struct {
 // account, an account whose NAME matches the ordinary one when read as a pattern); the two have distinct
 // secrets and devices.  Names are lower case (logins are normalised by reprocessUsername).
 var c05Family = [][2]string{
-	{"jadoe", "j_doe"},        // SQL LIKE _
-	{"jxdoe", "j%"},           // SQL LIKE %
-	{"j.doe", "j_doe"},        // both valid for the administrator's endpoints (bootstrap OTP)
-	{"jdoe", "j*"},            // LDAP filter / glob
-	{"jdoe", "jdoe)(uid=*"},   // LDAP filter syntax
-	{"jdoe", `j\64oe`},        // LDAP escape of 'd'
-	{"jadoe", "j.doe|jadoe"},  // regular expression
-	{"jdoe", "x/../jdoe"},     // path
+	{"jadoe", "j_doe"},       // SQL LIKE _
+	{"jxdoe", "j%"},          // SQL LIKE %
+	{"j.doe", "j_doe"},       // both valid for the administrator's endpoints (bootstrap OTP)
+	{"jdoe", "j*"},           // LDAP filter / glob
+	{"jdoe", "jdoe)(uid=*"},  // LDAP filter syntax
+	{"jdoe", `j\64oe`},       // LDAP escape of 'd'
+	{"jadoe", "j.doe|jadoe"}, // regular expression
+	{"jdoe", "x/../jdoe"},    // path
 	// (blank padding — "jdoe " — cannot be an account: the htpasswd reader trims names)
 }
 
@@ -536,7 +538,7 @@ const c05TokenLife = 1000000
 
 const (
 	c05PW, c05U2F, c05VIP, c05TOTP, c05BOOT, c05X509, c05CLI, c05FIDO2 = 1, 3, 4, 6, 8, 9, 10, 11
-	c05OKTA                                                              = 7
+	c05OKTA                                                            = 7
 )
 
 var c05Factors = []int{1, 2, 3, 4, 5, 6, 7, 8, 9, 10, 11}
@@ -674,6 +676,17 @@ func (w *c05World) shiftTotp(steps int64) {
 		return
 	}
 	st := w.env.state
+	// the step of the last success that validateUserTOTP keeps in memory (if this tree has one)
+	st.totpLocalTateLimitMutex.Lock()
+	for u, e := range st.totpLocalRateLimit {
+		if f := reflect.ValueOf(&e).Elem().FieldByName("lastSuccessCounter"); f.IsValid() && f.Kind() == reflect.Int64 {
+			if p := (*int64)(unsafe.Pointer(f.UnsafeAddr())); *p != 0 {
+				*p -= steps
+				st.totpLocalRateLimit[u] = e
+			}
+		}
+	}
+	st.totpLocalTateLimitMutex.Unlock()
 	for u := 1; u <= 2; u++ {
 		if !w.devs[u].profile {
 			continue
@@ -807,6 +820,9 @@ func (w *c05World) attach(req *http.Request, cs []int) (int, int) { return w.att
 
 // the Coq / human text of the operation with its request modifiers
 func (w *c05World) wrap(coq, human string) (string, string) {
+	if w.cachedReq {
+		return fmt.Sprintf("Cached (%s)", coq), "cached+" + human
+	}
 	if w.cert == 0 && !w.fault {
 		return coq, human
 	}
@@ -826,6 +842,31 @@ func (w *c05World) with(cert int, fault bool, f func()) {
 	w.cert, w.fault = cert, fault
 	f()
 	w.cert, w.fault = 0, false
+}
+
+// run one operation as a request during which every profile read is served from the cache database
+func (w *c05World) cached(f func()) {
+	w.cachedReq = true
+	f()
+	w.cachedReq = false
+}
+
+func (w *c05World) profileRows() string {
+	rows, err := w.env.state.db.Query(`SELECT username, profile_data FROM user_profile ORDER BY username`)
+	if err != nil {
+		w.t.Fatalf("reading user_profile: %v", err)
+	}
+	defer rows.Close()
+	var sb strings.Builder
+	for rows.Next() {
+		var n string
+		var b []byte
+		if err := rows.Scan(&n, &b); err != nil {
+			w.t.Fatal(err)
+		}
+		sb.WriteString(fmt.Sprintf("%q:%x;", n, sha256.Sum256(b)))
+	}
+	return sb.String()
 }
 
 func c05CoqList(cs []int) string {
@@ -918,6 +959,11 @@ func (w *c05World) record(kind, coqOp, human string, sessionUser int, ok bool, e
 	if w.fault {
 		w.res.bump("request:write-fault")
 	}
+	if w.cachedWrote {
+		w.res.hit(verifHit{Key: "C05:cached-write:" + kind, Oracle: "a request served from the cache writes no profile back", Kind: "history",
+			What: fmt.Sprintf("%s was served from the cache database and the primary's user_profile table changed", kind), Case: append(append([]string{}, w.human...), human)})
+		w.cachedWrote = false
+	}
 	w.ops = append(w.ops, coqOp)
 	w.human = append(w.human, human)
 	out := "None"
@@ -988,6 +1034,23 @@ func (w *c05World) serve(req *http.Request) *httptest.ResponseRecorder {
 				w.t.Fatalf("fault trigger: %v", err)
 			}
 		}()
+	}
+	if w.cachedReq {
+		// the cache is an up-to-date copy; the primary does not answer within the (zero) deadline, so every
+		// LoadUserProfile of this request takes its cache branch
+		st := w.env.state
+		if err := copyDBIntoSQLite(st.db, st.cacheDB, "sqlite"); err != nil {
+			w.t.Fatalf("copying into the cache: %v", err)
+		}
+		before := w.profileRows()
+		old := st.remoteDBQueryTimeout
+		st.remoteDBQueryTimeout = 0
+		rr, _ := w.env.serve(req)
+		time.Sleep(15 * time.Millisecond) // late readers of the primary and asynchronous saves
+		st.remoteDBQueryTimeout = old
+		w.cachedWrote = w.profileRows() != before
+		w.res.bump("request:from-cache")
+		return rr
 	}
 	rr, _ := w.env.serve(req)
 	return rr
@@ -1131,7 +1194,10 @@ func (w *c05World) totp(cs []int, owner int, step int64) {
 		}
 	}
 	st.totpLocalTateLimitMutex.Lock()
-	st.totpLocalRateLimit = map[string]totpRateLimitInfo{} // C14's subject; here every attempt is evaluated
+	for u, e := range st.totpLocalRateLimit { // C14's subject; here every attempt is evaluated (what else the entry remembers stays)
+		e.lastCheckTime, e.failCount, e.lastFailTime, e.lockoutExpirationTime = time.Time{}, 0, time.Time{}, time.Time{}
+		st.totpLocalRateLimit[u] = e
+	}
 	st.totpLocalTateLimitMutex.Unlock()
 	f := url.Values{}
 	f.Set("OTP", code)
@@ -1363,6 +1429,11 @@ func (w *c05World) issueOtp(target int, dur int64) {
 		}
 		w.curOtp[target] = id
 	}
+	if w.cachedWrote {
+		w.res.hit(verifHit{Key: "C05:cached-write:IssueOtp", Oracle: "a request served from the cache writes no profile back", Kind: "history",
+			What: "IssueOtp was served from the cache database and the primary's user_profile table changed", Case: append([]string{}, w.human...)})
+		w.cachedWrote = false
+	}
 	coq, human := w.wrap(fmt.Sprintf("IssueOtp %d %d", target, dur), fmt.Sprintf("IssueOtp(%s,%ds)", w.names[target], dur))
 	w.ops = append(w.ops, coq)
 	w.outs = append(w.outs, fmt.Sprintf("(%s, None, %s)", coqBool(ok), w.handedCoq()))
@@ -1508,6 +1579,9 @@ func (w *c05World) alphabet() []func() {
 		func() { w.tick(31); w.u2fBegin([]int{0}) },
 		func() { w.finish("U2fFinish", []int{0}, 1, false, first(1)) },
 		func() { w.totp([]int{1}, 1, w.modelStep()) },
+		// the primary database is slow: profiles come from the cache
+		func() { w.cached(func() { w.totp([]int{0}, 1, w.modelStep()) }) },
+		func() { w.cached(func() { w.bootstrap([]int{1}, otp(2)) }) },
 	}
 }
 
@@ -1528,6 +1602,10 @@ func (w *c05World) randomOp(rng *mrand.Rand) {
 	}
 	if rng.Intn(12) == 0 {
 		fault = true
+	}
+	if rng.Intn(10) == 0 {
+		w.cached(func() { w.randomOpPlain(rng) })
+		return
 	}
 	w.with(cert, fault, func() { w.randomOpPlain(rng) })
 }
@@ -1937,7 +2015,7 @@ func (w *c05World) targeted() []func() {
 		func() { // a second sign request: a NEW value every time; the first one stays dead after its lifetime
 			w.u2fBegin([]int{0})
 			first := w.curChal[1]
-			w.tick(31) // past the 30 s of the challenge, before any cleanup sweep
+			w.tick(31)           // past the 30 s of the challenge, before any cleanup sweep
 			w.u2fBegin([]int{0}) // same session
 			w.finish("U2fFinish", []int{0}, 1, false, first)
 			w.finish("U2fFinish", []int{0}, 1, false, w.curChal[1])
@@ -2075,7 +2153,48 @@ func (w *c05World) targeted() []func() {
 			w.oktaOtp([]int{1}, 2, true) // the OLD cookie of bob, the new Okta authentication
 			w.oktaOtp([]int{len(w.cookies) - 1}, 2, true)
 		},
+		w.cachedScenario,
 	}
+}
+
+// the primary database is slow for some requests: they are served from the cache copy
+func (w *c05World) cachedScenario() {
+	cur := func(u int) int {
+		if id, ok := w.curChal[u]; ok {
+			return id
+		}
+		return 9999
+	}
+	w.cached(func() { w.totp([]int{0}, 1, w.modelStep()) }) // accepted; nothing can be persisted
+	w.cached(func() { w.totp([]int{0}, 1, w.modelStep()) }) // the same code again, still from the cache
+	w.totp([]int{0}, 1, w.modelStep())                      // ... and with the primary back
+	w.cached(func() { w.totp([]int{0}, 1, w.modelStep()-1) })
+	w.cached(func() { w.totp([]int{1}, 1, w.modelStep()+1) }) // alice's code in bob's session
+	w.cached(func() { w.totp([]int{0}, 1, w.modelStep()+1) })
+	w.tick(30)
+	w.totp([]int{0}, 1, w.modelStep()) // the step accepted from the cache, one step later
+	w.totp([]int{0}, 1, w.modelStep()+1)
+	w.cached(func() { w.u2fBegin([]int{0}) })
+	w.cached(func() { w.finish("U2fFinish", []int{1}, 1, false, cur(1)) })
+	w.cached(func() { w.finish("U2fFinish", []int{0}, 1, false, cur(1)) })
+	w.cached(func() { w.finish("U2fFinish", []int{0}, 1, false, cur(1)) })
+	w.cached(func() { w.waBegin([]int{1}) })
+	w.cached(func() { w.finish("WaFinish", []int{1}, 2, true, cur(2)) })
+	w.cached(func() { w.waBegin([]int{0}) })
+	w.tick(30)
+	w.cached(func() { w.finish("WaFinish", []int{0}, 1, false, cur(1)) }) // expired, cache or not
+	w.cached(func() { w.issueOtp(2, 3600) })                              // an administrator cannot issue an OTP now
+	w.issueOtp(2, 3600)
+	w.cached(func() { w.bootstrap([]int{1}, w.curOtp[2]) }) // ... nor can it be used: it could not be cleared
+	w.bootstrap([]int{1}, w.curOtp[2])
+	w.cached(func() { w.bootstrap([]int{1}, w.curOtp[2]) })
+	w.cached(func() { w.vipOtp([]int{1}, 2, true) })
+	w.cached(func() { w.pushStart([]int{0}, 0) })
+	w.approve(w.vcTx[0])
+	w.cached(func() { w.poll([]int{1}, 0) })
+	w.cached(func() { w.poll([]int{0}, 0) })
+	w.cached(func() { w.login(1, true) })
+	w.cached(func() { w.showTok([]int{len(w.cookies) - 2}, c05TokenLife) })
 }
 
 // the Okta second factor in small scope (runs under the Okta configuration)
